@@ -332,6 +332,24 @@ func c14(c *wk.Ctx) {
 		}
 		idx++
 	}
+	// schemas with nothing of some kind: no functions, no types, no enums, one definition only, a type that occurs
+	// only as a vector element or only as a result
+	r0 := rand.New(rand.NewSource(4242))
+	edge := []string{
+		c14line("onlyThing", "count:int ", "OnlyThing", r0) + "\n",
+		c14line("alpha", "", "Greek", r0) + "\n" + c14line("beta", "", "Greek", r0) + "\n",
+		"---functions---\n" + c14line("ping", "id:long ", "Bool", r0) + "\n" + c14line("listIds", "", "Vector<long>", r0) + "\n",
+		c14line("leaf", "v:string ", "Leaf", r0) + "\n" + c14line("tree", "leaves:Vector<Leaf> ", "Tree", r0) + "\n---functions---\n" + c14line("getTree", "", "Tree", r0) + "\n",
+		c14line("resultOnly", "", "ResultOnly", r0) + "\n" + c14line("resultOther", "x:int ", "ResultOnly", r0) + "\n---functions---\n" + c14line("getIt", "flags:# a:flags.0?true ", "ResultOnly", r0) + "\n" + c14line("getThem", "", "Vector<ResultOnly>", r0) + "\n",
+		c14line("a.one", "", "a.Kind", r0) + "\n" + c14line("b.one", "", "b.Kind", r0) + "\n" + c14line("a.two", "k:b.Kind ", "a.Kind", r0) + "\n---functions---\n" + c14line("a.get", "k:a.Kind ", "b.Kind", r0) + "\n" + c14line("b.get", "k:b.Kind ", "a.Kind", r0) + "\n",
+		"---functions---\n---types---\n" + c14line("lateType", "n:int ", "LateType", r0) + "\n",
+	}
+	for _, text := range edge {
+		if c.Mine(idx) {
+			cases = append(cases, c14case{tag: fmt.Sprintf("s%d", idx), text: text, label: "edge"})
+		}
+		idx++
+	}
 	for _, text := range awkwardSchemas() {
 		if c.Mine(idx) {
 			cases = append(cases, c14case{tag: fmt.Sprintf("s%d", idx), text: text, label: "awkward-names"})
@@ -590,7 +608,21 @@ func c14generate(c *wk.Ctx, idx int, cs c14case, tlgen, work string, runs int) b
 			exec.Command(tlgen, prev, out).Run()
 			c.Count("tlgen.runs_into_used_directory", 1)
 		}
-		cmd := exec.Command(tlgen, src, out)
+		srcArg := src
+		if run == 1 {
+			// the same schema under another name in another directory, given as a relative path: the output is a
+			// function of the schema, not of where the file happens to lie
+			alt := filepath.Join(work, cs.tag+"-copy")
+			os.MkdirAll(alt, 0o755)
+			os.WriteFile(filepath.Join(alt, "schema_copy.tl"), []byte(cs.text), 0o644)
+			if rel, err := filepath.Rel(mustGetwd(), filepath.Join(alt, "schema_copy.tl")); err == nil {
+				srcArg = rel
+			} else {
+				srcArg = filepath.Join(alt, "schema_copy.tl")
+			}
+			c.Count("tlgen.runs_with_schema_at_another_path", 1)
+		}
+		cmd := exec.Command(tlgen, srcArg, out)
 		var stderr bytes.Buffer
 		cmd.Stderr = &stderr
 		cmd.Stdout = &stderr
